@@ -113,6 +113,10 @@ CORPUS = [
     "thresh(3,pk(A),s:pk(B),s:pk(C),sln:after(7))", "or_b(pk(A),a:and_b(pk(B),s:pk(C)))", "and_v(v:thresh(2,pk(A),s:pk(B),s:pk(C)),older(2))", "u:and_v(v:pk(A),pk(B))",
     "l:and_v(v:pk(A),pk(B))", "and_v(v:pk(A),or_d(pk(B),older(20)))", "or_i(multi(2,A,B),and_v(v:pk(C),after(700000)))", "andor(pk(A),or_i(and_v(v:pkh(B),hash160(G)),and_v(v:pk(C),older(50))),pk(D))",
 ]
+# a dissatisfiable sub-expression under everything that has to dissatisfy it (spent by D alone, the inner one is dissatisfied: pushes in the right order, of the right size)
+_DSAT_INNER = ["andor(pk(A),pk(B),pkh(C))", "and_b(pk(A),a:pkh(B))", "or_b(pk(A),a:pkh(B))", "or_d(pk(A),pkh(B))", "thresh(2,pk(A),a:pkh(B),s:pk(C))", "multi(2,A,B,C)", "j:and_v(v:pk(A),pkh(B))",
+               "c:or_i(pk_k(A),pk_h(B))", "andor(pkh(A),pk(B),multi(1,C,F))", "or_i(and_v(v:pkh(A),pk(B)),0)", "and_b(pkh(A),a:andor(pk(B),pkh(C),pk(F)))"]
+CORPUS += [outer.format(X=x) for x in _DSAT_INNER for outer in ("or_d({X},pk(D))", "or_b({X},s:pk(D))", "andor({X},pk(E),pk(D))", "thresh(1,{X},s:pk(D))")]
 
 
 def universe(rnd: random.Random) -> tuple[dict[str, str], dict[str, int], dict[str, bytes]]:
